@@ -166,8 +166,9 @@ func (c04) RunUnit(t core.Tier, u int, r *core.Reporter) {
 		}
 	case "big":
 		bigStore := []store.Pair{{K: "a", V: "9007199254740993"}, {K: "b", V: "9007199254740992"}, {K: "c", V: "9007199254740994"}, {K: "d", V: "3"}}
+		cur := bigStore
 		runOn := func(e *ref.Expr, isBool bool) {
-			c := c04Case{Expr: e, Bool: isBool, Store: bigStore}
+			c := c04Case{Expr: e, Bool: isBool, Store: cur}
 			if !r.Begin(func() *core.Failure {
 				return &core.Failure{Property: "C04", Leg: "folded-vs-unfolded", Case: c.text(), Data: core.MustJSON(c)}
 			}) {
@@ -184,6 +185,25 @@ func (c04) RunUnit(t core.Tier, u int, r *core.Reporter) {
 		}
 		B := c04BigLeaves()
 		a := B[un.i]
+		if un.i == 0 {
+			// a float operand ahead of two integer constants whose own sum / product
+			// passes the int64 limit: as written no two integers are ever combined
+			// (small stored numbers: every float sum below is exact or rounds the same way
+			// in either association, so only the integer wrap can tell the two forms apart)
+			cur = []store.Pair{{K: "d", V: "3"}, {K: "e", V: "0"}}
+			lim := []*ref.Expr{ref.N(9223372036854775807), ref.N(4611686018427387904), ref.N(3037000500), ref.N(1), ref.N(2), ref.N(-9223372036854775807)}
+			for _, x := range []*ref.Expr{ref.Call("float", ref.Value()), ref.Bin("+", ref.Call("int", ref.Value()), ref.Fl(0.5))} {
+				for _, c1 := range lim {
+					for _, c2 := range lim {
+						for _, op := range []string{"+", "*"} {
+							runOn(bin(op, bin(op, x.Clone(), c1), c2), false)
+							runOn(bin(">", bin(op, bin(op, x.Clone(), c1), c2), ref.N(0)), true)
+						}
+					}
+				}
+			}
+			cur = bigStore
+		}
 		for _, b := range B {
 			for _, o1 := range c04Arith {
 				if o1 == "/" && isZeroLit(b) {
